@@ -12,7 +12,7 @@ Definition xor_filter : filter :=
   let f := fun d => Some (map (fun b => n2b (N.lxor (b2n b) 90)) d) in
   mkFilter x01 f f.
 Definition rev_filter : filter :=
-  mkFilter x02 (fun d => Some (rev d)) (fun d => Some (rev d)).
+  mkFilter x02 (fun d => Some (frev d)) (fun d => Some (frev d)).
 Definition lenp_filter : filter :=
   mkFilter x03
     (fun d => Some (n2b (blen d) :: d))
